@@ -195,14 +195,19 @@ def e2e_group(item):
             for tc in itertools.product(*[range(1, k + 1) for k in shape]):
                 if sc == tc:
                     continue
-                for mem, minm in (("ample", None), ("tight", None), ("ample", "chunk"), ("tight", "chunk")):
+                for mem, minm in (("ample", None), ("tight", None), ("ample", "chunk"), ("tight", "chunk"), ("tight-reserved", None), ("tight-reserved", "chunk")):
                     for irr in (True, False):
                         case = dict(part="e2e", shape=shape, sc=sc, tc=tc, mem=mem, min_mem=minm, allow_irregular=irr)
                         cnt["e2e"] += 1
                         w = World()
                         try:
                             allowed = 4_000_000 if mem == "ample" else 8 * max(prod(sc), prod(tc)) * 6 + 100
-                            spec = cubed.Spec(intermediate_store=w.store("inter"), allowed_mem=allowed, reserved_mem=0)
+                            reserved = 0
+                            if mem == "tight-reserved":
+                                # half of the budget is reserved for non-data memory: the planner must work with what is left
+                                reserved = allowed
+                                allowed = 2 * allowed
+                            spec = cubed.Spec(intermediate_store=w.store("inter"), allowed_mem=allowed, reserved_mem=reserved)
                             x = xp.asarray(V, chunks=sc, spec=spec)
                             try:
                                 with warnings.catch_warnings():
@@ -235,6 +240,15 @@ def e2e_group(item):
                                                 break
                                 if len(ops) >= 2:
                                     cnt["e2e_multistage"] += 1
+                            # a rechunk the planner accepted must be admissible: no op may be projected above allowed_mem
+                            try:
+                                over = [(n, d["primitive_op"].projected_mem) for n, d in cubed.plan(y).dag.nodes(data=True)
+                                        if "primitive_op" in d and d["primitive_op"].projected_mem > allowed]
+                            except Exception:
+                                over = []
+                            if over:
+                                add("plan-exceeds-budget", case, f"the planner accepted the request but its copy ops are projected above allowed_mem={allowed} (reserved_mem={reserved}): {over[:2]}: {case}")
+                                continue
                             exp_chunks = tuple(tuple(min(t, n - o) for o in range(0, n, t)) for n, t in zip(shape, tc))
                             if tuple(y.chunks) != exp_chunks:
                                 add("wrong-chunks", case, f"rechunk result declares chunks {y.chunks}, requested {exp_chunks}: {case}")
